@@ -220,6 +220,10 @@ def run(check, repo, tier):
     n1 = must_parse(check, P)
     pat = pattern_rule(check, P)
     n3 = dispatch_rule(check, P)
+    check.rule("R5", "ParamsDict (the readings record) behaves as the case-insensitive dict the analysis uses in its place: every method executed "
+                     "from source on symbolic stored values (a reading of 0 is a value, not an absent key)")
+    from . import paramsdict
+    paramsdict.contract(check, P, "R5")
     check.analysed = {"program": P.stats(), "callback_paths": n1, "parser_paths": n3, "pattern": pat, "families": [f[0] for f in FAMILIES]}
     check.sample({"scenario": "position report, X repeated", "tokens": "X:a Y:b Z:c E:d X:e", "expected_readings": "X=float(a) (first), Y, Z, E"})
     check.coverage["exhaustive"] = True
